@@ -279,7 +279,7 @@ def naming(eng: Engine, ctx: Ctx, rid: str, model: DecoderModel):
     sep, spec = SH.decoder_suffix_format(eng)
     anamT = ("param", model.anam)
     n = 0
-    loops = [(lid, info) for lid, info in se.loop_info.items() if info.get("iter") == model.idxp]
+    loops = [(lid, info) for lid, info in se.loop_info.items() if info.get("iter") == model.idxp and not info.get("comp")]
     loc = eng.loc(f, f.node)
     name_terms = set()
     if len(loops) == 1:
@@ -562,7 +562,7 @@ def groups(eng: Engine, ctx: Ctx, rid6: str, rid7: str, rid8: str, model: Decode
         gd = ("typed", dict, "gdict")
         se = eng.symeval(g.qualname, bind={adefp: ("tuple", (("const", des), gd))}, unroll=_no_self_calls)
         # the count: argument of the range() the iteration loop runs over
-        loops = [(lid, info) for lid, info in se.loop_info.items() if info.get("unrolled") is None]
+        loops = [(lid, info) for lid, info in se.loop_info.items() if info.get("unrolled") is None and not info.get("comp")]
         outer = [(lid, info) for lid, info in loops if any(e.loops and e.loops[0] == lid and len(e.loops) == 2 for e in se.effects)]
         if len(outer) != 1:
             bad.setdefault("iteration loops", []).append((des, f"{len(outer)} outer loops"))
